@@ -378,13 +378,32 @@ def rule_dp6(ctx: Ctx) -> RuleResult:
             "DP-6", "%s::batch._terminate{flag}" % rel, m.where(termfn),
             "the terminator flags the pending batch with %s whatever the accumulator holds: an already emitted full batch is emitted "
             "again when the length is a multiple of batch_size, and an empty batch is emitted for an empty source" % (show(flag) if flag else None), trace_of(p)))
-    # downstream selection by the flag and projection of the batch
+    # downstream selection by the flag (component 1) and projection of the batch (component 0)
     fn = m.enclosing_function(call)
-    txt = [ast.unparse(a) for a in m.parent[call].args] if isinstance(m.parent.get(call), ast.Call) else []
-    sel = any("filter(lambda i: i[1]" in t for t in txt)
-    proj = any("map(lambda i: i[0])" in t for t in txt)
+    par = m.parent.get(call)
+    sel = proj = False
+    if isinstance(par, ast.Call) and call in par.args:
+        k = par.args.index(call)
+        rest = par.args[k + 1:]
+        cbs = []
+        for a in rest:
+            if isinstance(a, ast.Call) and a.args:
+                dn = dotted_name(a.func) or ""
+                ref = ctx.program.resolve_dotted(m, dn) if dn else ("unknown", "")
+                name = "%s.%s" % (ref[1].name, ref[2].name) if ref[0] == "def" else dn
+                cbs.append((name, _callable_def(ctx, m, a.args[0], fn)))
+        if len(cbs) == 2 and cbs[0][0] == "rxsci.operators.filter.filter" and cbs[1][0] == "rxsci.operators.map.map" and cbs[0][1] is not None and cbs[1][1] is not None:
+            from .poly import strip_uid
+            f1, f2 = cbs[0][1], cbs[1][1]
+            A1 = ("arg", m.scopes[f1].params[0])
+            A2 = ("arg", m.scopes[f2].params[0])
+            vals = [strip_uid(p.value) for p in ctx.fn_paths(m, f1) if p.value is not None]
+            flag = ("sub", A1, ("const", 1))
+            sel = bool(vals) and all(v == flag or (v[0] == "cmp" and v[1] in ("Eq", "Is") and {v[2], v[3]} == {flag, ("const", True)}) for v in vals)
+            vals2 = [strip_uid(p.value) for p in ctx.fn_paths(m, f2) if p.value is not None]
+            proj = bool(vals2) and all(v == ("sub", A2, ("const", 0)) for v in vals2)
     r.ob(sel and proj, lambda: Finding("DP-6", "%s::batch{select}" % rel, m.where(call),
-                                       "batches must be selected by the flag (component 1) and projected to the list (component 0)"))
+                                       "after the scan, batches must be selected by the flag (component 1 is True) and projected to the list (component 0)"))
     r.require_instances(2)
     return r
 
